@@ -60,3 +60,16 @@ Example C05_example :
   bits_of_f64 (fp1632_float64 [128; 0; 0; 0; 0; 1]%N) = 0x3FF8000000000000 /\      (* 1.5 *)
   fp1632_from (fp1632_float64 [18; 52; 86; 120; 255; 254]%N) = [18; 52; 86; 120; 255; 254]%N.
 Proof. repeat split; vm_compute; reflexivity. Qed.
+
+(* The model IS the code: FP1220 / FP1632 Float64 and FromFloat64 as REGENERATED statement by statement from
+   fixedpoint.go on this run (Gen/Fixed.v: Uint32/Uint64, the sign-extension branch, float64(int), the division
+   and multiplication by 2^k, the float -> unsigned conversion, PutUint32/PutUint64 and the byte shuffling) are the
+   models the theorems above are stated over - for every byte pattern and every binary64 value *)
+Require Import Base.GoBytes Gen.Fixed Tie.FixedAgree.
+Theorem C05_fp1220_models_are_the_source : forall b x, wf_bytes b -> length b = 4%nat ->
+  g_FP1220_Float64 b = Val (fp1220_float64 b) /\ g_FP1220_FromFloat64 b x = Val (fp1220_from x).
+Proof. intros b x Hw Hl. split; [apply fp1220_float64_agrees|apply fp1220_from_agrees]; assumption. Qed.
+Theorem C05_fp1632_models_are_the_source : forall b x, wf_bytes b -> length b = 6%nat ->
+  g_FP1632_Float64 b = Val (fp1632_float64 b) /\ g_FP1632_FromFloat64 b x = Val (fp1632_from x).
+Proof. intros b x Hw Hl. split; [apply fp1632_float64_agrees|apply fp1632_from_agrees]; assumption. Qed.
+Print Assumptions C05_fp1632_models_are_the_source.
